@@ -46,16 +46,39 @@ IN = dns.rdataclass.IN
 A, SOA, TXT = dns.rdatatype.A, dns.rdatatype.SOA, dns.rdatatype.TXT
 
 
+NS = dns.rdatatype.NS
+# key -> (owner name, rdtype).  Keys 0/1 share the origin, 6/8 share x.sub; 5 and 8 are NS rdatasets, so on
+# a dns.btreezone.Zone adding / deleting them creates and removes delegation points above committed
+# descendants (x.sub, y.x.sub): the glue-flag copy-on-write paths.
+KEYMAP = {
+    0: ("@", SOA), 1: ("@", TXT), 2: ("n2", A), 3: ("n3", A), 4: ("n4", A),
+    5: ("sub", NS), 6: ("x.sub", A), 7: ("y.x.sub", A), 8: ("x.sub", NS),
+}
+NAME_LEVEL_DELETE = (2, 3, 4)   # these names carry one rdataset: delete the whole name (delete_node path)
+REV = {(dns.name.from_text(n, None) if n != "@" else dns.name.empty, t): k for k, (n, t) in KEYMAP.items()}
+
+
 def key_name(k):
-    return dns.name.empty if k in (0, 1) else dns.name.from_text("n%d" % k, None)
+    n = KEYMAP[k][0]
+    return dns.name.empty if n == "@" else dns.name.from_text(n, None)
 
 
 def key_rdataset(k, v):
-    if k == 0:
+    t = KEYMAP[k][1]
+    if t == SOA:
         return dns.rdataset.from_text("IN", "SOA", 300, "ns hostmaster %d 7200 900 1209600 300" % v)
-    if k == 1:
+    if t == TXT:
         return dns.rdataset.from_text("IN", "TXT", 300, '"%d"' % v)
+    if t == NS:
+        return dns.rdataset.from_text("IN", "NS", 300, "ns%d" % v)
     return dns.rdataset.from_text("IN", "A", 300, "10.0.%d.%d" % ((v >> 8) & 255, v & 255))
+
+
+def delete_key(txn, k):
+    if k in NAME_LEVEL_DELETE:
+        txn.delete(key_name(k))
+    else:
+        txn.delete(key_name(k), KEYMAP[k][1])
 
 
 def content_of(pairs):
@@ -63,19 +86,20 @@ def content_of(pairs):
     out = []
     for name, rds in pairs:
         rd = list(rds)
-        if len(rd) != 1:
+        k = REV.get((name, rds.rdtype))
+        if len(rd) != 1 or k is None:
             out.append([-1, len(rd)])
             continue
         rd = rd[0]
-        if name == dns.name.empty and rds.rdtype == SOA:
-            out.append([0, rd.serial])
-        elif name == dns.name.empty and rds.rdtype == TXT:
-            out.append([1, int(rd.strings[0])])
-        elif rds.rdtype == A and str(name).startswith("n"):
-            a = [int(x) for x in rd.address.split(".")]
-            out.append([int(str(name)[1:]), a[2] * 256 + a[3]])
+        if rds.rdtype == SOA:
+            out.append([k, rd.serial])
+        elif rds.rdtype == TXT:
+            out.append([k, int(rd.strings[0])])
+        elif rds.rdtype == NS:
+            out.append([k, int(rd.target.labels[0][2:])])
         else:
-            out.append([-2, int(rds.rdtype)])
+            a = [int(x) for x in rd.address.split(".")]
+            out.append([k, a[2] * 256 + a[3]])
     return sorted(out)
 
 
@@ -103,6 +127,35 @@ def make_policy(code, arg):
     raise ValueError("bad policy code")
 
 
+def mutable_objects(z):
+    """every object of every retained version that is not of an immutable class (must be none)"""
+    import dns._immutable_ctx
+    import dns.btree
+    imm = dns._immutable_ctx._Immutable
+    bad = []
+    for v in z._versions:
+        if imm not in type(v).__mro__:
+            bad.append(f"version {v.id}: {type(v).__name__}")
+        m = v.nodes
+        if isinstance(m, dns.btree.BTree):
+            if not m._immutable:
+                bad.append(f"version {v.id}: mutable BTreeDict")
+        elif imm not in type(m).__mro__:
+            bad.append(f"version {v.id}: node map {type(m).__name__}")
+        d = getattr(v, "delegations", None)
+        if d is not None and not d._immutable:
+            bad.append(f"version {v.id}: mutable delegations index")
+        for name, node in m.items():
+            if imm not in type(node).__mro__ or not node.is_immutable() or not isinstance(node.rdatasets, tuple):
+                bad.append(f"version {v.id} node {name}: {type(node).__module__}.{type(node).__name__}")
+            for rds in node.rdatasets:
+                if not isinstance(rds, dns.rdataset.ImmutableRdataset):
+                    bad.append(f"version {v.id} node {name} rdataset {dns.rdatatype.to_text(rds.rdtype)}: {type(rds).__name__}")
+    if z.nodes is not z._versions[-1].nodes:
+        bad.append("zone.nodes is not the newest version's node map")
+    return bad
+
+
 class Run:
     def __init__(self, kind):
         self.z = ZONES[kind]("example.")
@@ -121,6 +174,7 @@ class Run:
             rs,
             int(z._write_txn is not None),
             content_of(z.iterate_rdatasets()),
+            len(mutable_objects(z)),
         ]
 
     def step(self, op):
@@ -163,13 +217,7 @@ class Run:
             if c == 5:
                 self.w.replace(key_name(op[1]), key_rdataset(op[1], op[2]))
             elif c == 6:
-                k = op[1]
-                if k == 0:
-                    self.w.delete(dns.name.empty, "SOA")
-                elif k == 1:
-                    self.w.delete(dns.name.empty, "TXT")
-                else:
-                    self.w.delete(key_name(k))
+                delete_key(self.w, op[1])
             else:
                 w, self.w = self.w, None
                 if c == 7:
@@ -198,10 +246,14 @@ def exc_code(e):
 
 
 def in_model(kind, case):
-    return case[0] != 2
+    return case[0] not in (2, 4)
 
 
 def impl(case):
+    if case[0] == 4:  # replay of one reader()-preemption schedule
+        import c11_atomic
+        f = c11_atomic.replay(case)
+        return [0, []] if f is None else [1, [f["what"]]]
     if case[0] == 2:  # replay of one reported immutability failure
         fs = c11_immut.replay(case)
         return [len(fs), [f["what"] + " " + " ".join(f.get("args", [])) for f in fs[:5]]]
@@ -225,7 +277,7 @@ def impl(case):
 
 # ---------------------------------------------------------------------------- generators
 
-KEYS = [0, 0, 1, 2, 2, 3, 4]
+KEYS = [0, 0, 1, 2, 2, 3, 4, 5, 5, 6, 6, 7, 8]
 
 
 def gen_write(rng, serial):
@@ -315,26 +367,41 @@ ALPHABET = [
 ]
 
 
+# second alphabet: delegation points added / removed above committed descendants (glue-flag copy-on-write
+# in dns.btreezone), interleaved with readers
+ALPHABET2 = [
+    [[0]], [[3, 0]], [[1, 2]],
+    [[4, 0], [5, 6, 1], [5, 7, 1], [7]],   # descendants x.sub, y.x.sub
+    [[4, 0], [5, 5, 1], [7]],              # NS at sub: delegation above them
+    [[4, 0], [6, 5], [7]],                 # delete that NS
+    [[4, 0], [5, 8, 2], [7]],              # nested NS at x.sub
+    [[4, 0], [6, 8], [5, 2, 3], [7]],
+    [[9, None]],
+]
+
+
 def cases(ctx):
     rng = ctx.rng
+    for word in itertools.product(range(len(ALPHABET2)), repeat=ctx.n(3, 4)):
+        ops = [o for i in word for o in ALPHABET2[i]]
+        yield "exhaustive-delegations", [1, ops]
+        if word[0] % 3 == 0:
+            yield "exhaustive-delegations", [0, ops]
     # 1. exhaustive: every word of length L over the alphabet (prefixes are covered by the per-step outputs)
     L = ctx.n(3, 4)
     n = 0
     for word in itertools.product(range(len(ALPHABET)), repeat=L):
         ops = [o for i in word for o in ALPHABET[i]]
-        kind = n % 2 if ctx.quick else 0
-        yield "exhaustive", [kind, ops]
-        if not ctx.quick:
-            yield "exhaustive", [1, ops]
+        yield "exhaustive", [n % 2, ops]
         n += 1
     ctx.notes["exhaustive"] = True
-    ctx.notes["exhaustive_scope"] = f"all {len(ALPHABET)}^{L} histories of {L} macro-operations over a {len(ALPHABET)}-letter alphabet (both zone kinds in thorough)"
+    ctx.notes["exhaustive_scope"] = f"all {len(ALPHABET)}^{L} histories of {L} macro-operations over a {len(ALPHABET)}-letter alphabet (zone kinds alternating)"
     # 2. random interleaved histories
-    for i in range(ctx.n(700, 12000)):
+    for i in range(ctx.n(700, 9000)):
         length = rng.choice([6, 10, 16, 24, 40])
         yield "history", [i % 2, gen_history(rng, length)]
     # 3. long retention scenarios: many commits under a max-versions policy with pinned readers
-    for i in range(ctx.n(60, 1500)):
+    for i in range(ctx.n(60, 1000)):
         ops = [[9, rng.choice([1, 2, 3, 5])]]
         opened = 0
         for j in range(rng.randint(5, 14)):
@@ -379,9 +446,9 @@ def oracle(ctx, kind, case, out):
     if isinstance(out, Err):
         fail("history runner failed: " + out.text, -1)
         return F
-    if case[0] == 2:
+    if case[0] in (2, 4):
         if out[0]:
-            fail("immutability: " + "; ".join(x.decode("latin-1") if isinstance(x, bytes) else str(x) for x in out[1]), -1)
+            fail(("immutability: " if case[0] == 2 else "reader() atomicity: ") + "; ".join(x.decode("latin-1") if isinstance(x, bytes) else str(x) for x in out[1]), -1)
         return F
     zk, ops = case
     history = [1]              # every id ever committed, in order
@@ -399,7 +466,9 @@ def oracle(ctx, kind, case, out):
         if isinstance(res, Err) and res.code >= 100 and res.code != 999:
             fail("internal exception escaped: " + res.text, n)
             return F
-        ids, readers, wopen, cur = view
+        ids, readers, wopen, cur, nmut = view
+        if nmut:
+            fail("a committed version contains a mutable object", n, count=nmut)
         c = op[0]
         ok = not isinstance(res, Err)
         # -- ids strictly increase; retained = contiguous run of history containing the newest
@@ -491,8 +560,14 @@ def oracle(ctx, kind, case, out):
     return F
 
 
+def generated_obligations(ctx):
+    import c11_atomic
+    return c11_atomic.generated_obligations(ctx)
+
+
 def extra(ctx):
-    return c11_immut.check(ctx)
+    import c11_atomic
+    return c11_immut.check(ctx) + c11_atomic.check(ctx)
 
 
 def widen(ctx, disagreements):
